@@ -59,7 +59,7 @@ class _Model:
         self.gen = ctx.need_fn(ds, R, GEN)
         g = self.gen
         self.region = [g] + ds.descendants(g)
-        self.flow = Flow(ds, entries=[g.raw["id"]])
+        self.flow = Flow(ds, entries=[g.raw["id"]], precise=True)
         self.tw = self.flow.tw
         vs = [i for i in range(1, g.argc + 1) if "semver::Version" in g.local_ty(i)]
         self.vparam = vs[0] if len(vs) == 1 else None
@@ -155,20 +155,18 @@ def r1_same_filter(ctx):
     if m.vparam is None:
         ctx.lost(R, "gen_openapi's &semver::Version parameter")
         return
-    sites = [(f, bb, t) for f in m.region for bb, t in f.live_calls(r"^router::HttpRouter::<Context>::endpoints$")]
-    for f, bb, t in sites:
+    sites = [(u["f"], u["bb"], u["t"], _use_role(m, u)) for u in _endpoint_uses(m)]
+    for f, bb, t, role in sites:
         if len(t["args"]) < 2:
-            ctx.check(R, "endpoints-arg:%s:?" % _sfx(f), False, "router.endpoints called without a version argument", (f, bb))
+            ctx.check(R, "endpoints-arg:%s" % role, False, "router.endpoints called without a version argument", (f, bb))
             continue
         o = m.flow.origins(f, t["args"][1])
         some = ("std::option::Option", "Some") in o.aggs
         none = ("std::option::Option", "None") in o.aggs
         bad = _plumbing_only(o)
-        cb, ct = _consumer(f, t["dest"]["l"])
-        kind = (ct.get("callee") or "?").split("::")[-1] if ct else "?"
         ok = some and not none and o.roots == {(g.id, m.vparam)} and not bad
-        ctx.check(R, "endpoints-arg:%s:%s" % (_sfx(f), kind), ok,
-                  "router.endpoints(..) is given Some(gen_openapi's version parameter): Some=%s None-possible=%s origin=%s other callees=%s" % (some, none, sorted(o.roots), bad), (f, bb))
+        ctx.check(R, "endpoints-arg:%s" % role, ok,
+                  "router.endpoints(..) (%s) is given Some(gen_openapi's version parameter): Some=%s None-possible=%s origin=%s other callees=%s" % (role, some, none, sorted(o.roots), bad), (f, bb))
     ctx.check(R, "endpoints-sites", len(sites) >= 2, "router.endpoints call sites in gen_openapi: %d" % len(sites), g, nontrivial=False)
     # callers of gen_openapi pass the stored version
     cs = [(f, bb, t) for f, bb, t in ds.callers_of(GEN) if bb in f.reachable(0)]
